@@ -1088,6 +1088,39 @@ func (x *extractor) factsAds() {
 		})
 	}
 	x.set("send_local_copy", slc)
+	// (C04) findUnit: the table; on a miss the unit's directory is read, whatever has been scanned before; the table again
+	fu := "unknown"
+	if fd := x.fn("pkg/workceptor/workceptor.go", "Workceptor", "findUnit"); fd != nil {
+		var parts []string
+		for _, st := range fd.Body.List {
+			switch v := st.(type) {
+			case *ast.AssignStmt:
+				if strings.Contains(x.str(v), "w.activeUnits[unitID]") {
+					parts = append(parts, "table")
+				} else {
+					parts = append(parts, "assign:"+x.str(v.Lhs[0]))
+				}
+			case *ast.ExprStmt:
+				switch c := x.str(v.X); {
+				case c == "w.scanForUnit(unitID)":
+					parts = append(parts, "miss:scanForUnit-unconditional")
+				case strings.HasSuffix(c, "Lock()") || strings.HasSuffix(c, "Unlock()"):
+				default:
+					parts = append(parts, "call:"+c)
+				}
+			case *ast.IfStmt:
+				c := x.str(v.Cond)
+				if c != "ok" && c != "!ok" {
+					parts = append(parts, "if:"+c)
+				}
+			case *ast.ReturnStmt:
+			default:
+				parts = append(parts, "other")
+			}
+		}
+		fu = strings.Join(parts, ";")
+	}
+	x.set("crash_findunit", fu)
 	// (C13) the command runner works in the directory it is given and never creates it
 	rmk := "unknown"
 	if fd := x.fn("pkg/workceptor/command.go", "", "commandRunner"); fd != nil {
